@@ -36,7 +36,10 @@ type fn struct {
 	text bool
 	// big: the function uses (or calls a function that uses) math/big values (big.go). Such
 	// functions are placed in separate <File>Big modules importing Go/Big.lean.
-	big            bool
+	big bool
+	// bigFloat: the function uses (or calls a function that uses) big.Float values (bigfloat.go):
+	// placed in <File>BigFloat modules importing Go/BigFloat.lean. Implies big.
+	bigFloat       bool
 	bigInf         *bigInfo
 	bigStoredParam []int    // indices of *big.Int / *big.Rat parameters the function stores into
 	unmodelled     []string // foreign calls replaced by `throw (Go.Panic.unmodelled …)`, in source order
@@ -343,6 +346,9 @@ func (t *tr) analyseFn(F *fn) {
 		if strings.Contains(lt, "Go.Big") {
 			F.big = true
 		}
+		if strings.Contains(lt, "Go.BigFloat") {
+			F.bigFloat = true
+		}
 	}
 	if r := sig.Recv(); r != nil {
 		checkType(r.Type(), F.decl)
@@ -461,6 +467,7 @@ func (t *tr) analyseFn(F *fn) {
 		return true
 	})
 	t.checkBigFlow(F, unsupported)
+	t.checkNilFlow(F, unsupported)
 }
 
 func (t *tr) analyseCall(F *fn, n *ast.CallExpr, unsupported func(ast.Node, string)) {
@@ -535,6 +542,9 @@ func (t *tr) analyse() {
 	}
 	for _, F := range t.order {
 		t.checkBigCalls(F)
+		if F.skip == "" && F.decl.Body != nil {
+			F.skip = t.callsNilTested(F)
+		}
 	}
 	// global variables: initialisers must be constant composite literals
 	for _, g := range t.gord {
@@ -590,15 +600,18 @@ func (t *tr) analyse() {
 			u := F.usesG
 			tx := F.text
 			bg := F.big
+			bf := F.bigFloat
 			for c := range F.callees {
 				C := t.funcs[c]
 				m = m || C.monadic
 				u = u || C.usesG
 				tx = tx || C.text
 				bg = bg || C.big
+				bf = bf || C.bigFloat
 			}
-			if m != F.monadic || u != F.usesG || tx != F.text || bg != F.big {
-				F.monadic, F.usesG, F.text, F.big = m, u, tx, bg
+			bg = bg || bf
+			if m != F.monadic || u != F.usesG || tx != F.text || bg != F.big || bf != F.bigFloat {
+				F.monadic, F.usesG, F.text, F.big, F.bigFloat = m, u, tx, bg, bf
 				changed = true
 			}
 		}
